@@ -362,6 +362,58 @@ def case(ctx, rng, idx):
             if repr((o2, norm(s2l))) != first:
                 ctx.violation("second-call-differs", "after the returned solutions were edited, solving the same model again gives %r (first %s)" % (res2, first[:300]), w)
                 return
+    if tn != "dict" and tv and not stale and pk != "reads-model" and len(m) and rng.random() < 0.3 \
+            and all(type(v_) in (int, float) and abs(v_) < 2 ** 20 for v_ in m.values()):
+        # second solve of the SAME model object after it was edited in place: the number of terms stays, the function does not
+        # (or, for the method of a PCBO/PCSO, only a constraint is recorded: the terms stay, the valid set does not)
+        how = rng.choice(["negate", "change-coefficient", "record-constraint"] if (use_method and tn in ("PCBO", "PCSO")) else ["negate", "change-coefficient"])
+        try:
+            if how == "negate":
+                m *= -1
+            elif how == "change-coefficient":
+                k_ = rng.choice([k for k in m if k] or list(m))
+                m[k_] += rng.choice([5, -7, 2.5])
+            else:
+                m.add_constraint_eq_zero({(tv[-1],): 1, (): (-1 if kind == "bool" else 1)}, lam=0)     # "the last variable is 1 / -1"
+        except Exception as e:   # noqa
+            ctx.violation("second-solve:edit-raises-%s" % type(e).__name__, "%s raised %r" % (how, e), w)
+            return
+        ctx.cat("second-solve-after-in-place-edit:" + how)
+        w2 = dict(w, then=how, terms_after=dict(m))
+        p2 = ref.from_raw(kind, dict(m))
+        tv2 = sorted(p2.vars(), key=repr)
+        if set(tv2) != set(tv):
+            return              # (a coefficient cancelled: the model went stale, which the first half of the case covers)
+        if use_method:
+            ok_set2 = [x for x in cands if m.is_solution_valid(x)]
+        else:
+            ok_set2 = [x for x in cands if valid(x, count=False)]
+        if not ok_set2:
+            return
+        eo2 = min(p2.value(x) for x in ok_set2)
+        ex2 = [x for x in ok_set2 if p2.value(x) == eo2]
+        if use_method:
+            ok2, sol2 = ctx.call("%s.solve_bruteforce" % tn, m.solve_bruteforce, alls, _w=w2)
+            obj2 = None
+        else:
+            args2 = (m, alls) if w.get("valid") == "omitted" else (m, alls, valid)
+            ok2, res2 = ctx.call(w["function"], getattr(L.utils, w["function"]), *args2, _w=w2)
+            if ok2:
+                obj2, sol2 = res2
+        if not ok2:
+            return
+        ctx.count("second-solve-checks")
+        if not use_method and (obj2 is None or frac(obj2) != eo2):
+            ctx.violation("second-solve:wrong-objective", "after %s the objective is %r, true minimum %r" % (how, obj2, eo2), w2)
+            return
+        sols2 = sol2 if alls else [sol2]
+        for s_ in sols2:
+            if not isinstance(s_, dict) or {v: s_.get(v) for v in tv} not in ex2:
+                ctx.violation(tag + "second-solve:solution-not-a-minimiser", "after %s the solution %r is not among the valid minimisers %r" % (how, s_, ex2[:4]), w2)
+                return
+        if alls and norm([{v: s_[v] for v in tv} for s_ in sols2]) != norm(ex2):
+            ctx.violation(tag + "second-solve:all_solutions-wrong-set", "after %s: returned %r expected %r" % (how, sols2[:4], ex2[:4]), w2)
+            return
     if len(tv) >= 2 and len(ok_set) >= 2:
         ctx.nontrivial((w.get("function", "method"), tn, sorted(snap.items(), key=repr), pk, alls, target if pk == "one" else kcard))
     ctx.sample({"type": tn, "terms": snap, "predicate": pk, "all_solutions": alls, "objective": None if obj == "n/a" else obj}, limit=3)
